@@ -255,6 +255,13 @@ def check_flag(ctx, c, big=False):
         if isinstance(a, tuple) and not isinstance(b, tuple):
             return None, None, False     # validation rejected the input: not a valid input, out of the property's domain
         if isinstance(b, tuple) and not isinstance(a, tuple):
+            # which validated computation already shows a diverged (NaN-filled) prediction?  then this is the divergence
+            # class (finding F-diverge): validation is what detects the overflow, without it a later stage raises
+            nf = [n for n, A in a if not np.all(np.isfinite(A))]
+            if nf:
+                comp = 'predict_trajectory' if nf[0].startswith('predict_trajectory') else nf[0]
+                return (f'{comp}: a diverging prediction is NaN-filled with validation and raises with skip_validation=True: {b}',
+                        {'nonfinite': True, 'computation': comp}, True)
             return f'raises only with skip_validation=True: {b}', {'nonfinite': False}, False
         return None, None, False
     nonfinite = False
